@@ -52,7 +52,7 @@ REQUIRED = [
     "C02_view_hidden_refused",
     "C02_key_in_use_refused",
     "C02_inplace_loops_any_order",
-    "C02_inplace_insert_dimension_topology_breaks_inv",
+    "C02_old_insert_dimension_topology_counterexample",
 ]
 BUDGET = {"quick": 2400, "thorough": 30000}
 QUICK_JOBS = 4
@@ -835,7 +835,8 @@ def targeted(rng, st, akeys, size, sized, arr, tof, cms):
         ones = [k for k in sized if size[k] == 1 and k not in daxes]
         ax = rng.choice(ones) if ones and rng.random() < 0.5 else None
         if any(t in ("top", "con") and c["data"] is not None for (t, _), c in cons.items()) and rng.random() > 0.5 * RISK:
-            # on a mesh the in-place call with constructs is the open finding: keep it a small fraction
+            # on a mesh the in-place call with constructs failed half-way before
+            # fixes/C02-insert-dimension-skips-topology-constructs.patch: mix in the non-in-place call
             return ("insdim", ax, rng.randint(0, nd), True, False)
         return ("insdim", ax, rng.randint(0, nd), True, True)
     return None
